@@ -3,13 +3,14 @@ import Evenio.Proofs.SlotMap
 import Evenio.Proofs.Effect
 import Evenio.Proofs.HoareOk
 import Evenio.Model.Inv
+import Evenio.Proofs.Edges
 /-! Refinement of the pure storage model (`Evenio/Model/StoragePure.lean`) by the monadic world operations
     `moveEntity`, `removeEntity`, `archSpawn` (+ the step of `spawnAll`) of `Evenio/Model/World.lean`.  Helpers for
     `Evenio/Props/C02World.lean`.  Core Lean only.
 
     * lists: `mapIdx_set`, `filterMap_zipIdx_set`;
     * `SlotMap.toList` (`Entities::iter`) under `set` / `remove` (`toList_set`, `toList_remove`: exact list
-      equalities, no well-formedness needed), `toList_keys_nodup`, `get_set`, `WF.set`, `insertWith_fresh`;
+      equalities, no well-formedness needed), `toList_keys_nodup`, `get_set_refine`, `WF.set_refine`, `insertWith_fresh`;
     * the abstraction `absStore : World → Store` (`absArch` forgets capacity / buffer epoch; a vacant slab entry becomes an
       empty placeholder archetype), `absStore_loc`, `absStore_arch_of_get`, `invStore_absWF`, `invArch_facts`;
     * `run.run` equations of the primitive steps (`run_getArch'`, `run_setArch`, `run_setLoc`, `run_dropCellIdx`,
@@ -24,7 +25,7 @@ import Evenio.Model.Inv
     * the simulation lemmas `moveEntity_sim`, `removeEntity_sim'`, `archSpawn_sim`, `spawnStep_sim`, `spawnAll_sim`
       (`Store.Equiv`: stores up to the order of `locs`), completeness of the component / cell pairing
       (`moveEntity_sim_complete`, `removeEntity_sim_complete`), preservation of the side conditions (`*_keeps`);
-    * `HK`: the handler table keeps its keys (`moveEntity_hk`, `removeEntity_hk`, `archSpawn_hk`, `spawnAll_hk`). -/
+    * `HK_refine`: the handler table keeps its keys (`moveEntity_hk_refine`, `removeEntity_hk_refine`, `archSpawn_hk_refine`, `spawnAll_hk_refine`). -/
 namespace Evenio
 open SparseMap (swapRemove)
 set_option linter.unusedSimpArgs false
@@ -90,7 +91,7 @@ variable {α : Type}
 def tl (p : Slot α × Nat) : Option (Key × α) :=
   if p.1.gen % 2 = 0 then none else p.1.val.map fun v => (⟨p.2, p.1.gen⟩, v)
 
-theorem toList_eq (sm : SlotMap α) : sm.toList = sm.slots.zipIdx.filterMap tl := rfl
+private theorem toList_eq (sm : SlotMap α) : sm.toList = sm.slots.zipIdx.filterMap tl := rfl
 
 theorem tl_idx {p : Slot α × Nat} {b : Key × α} (h : tl p = some b) : b.1.idx = p.2 ∧ b.1.gen = p.1.gen ∧
     p.1.val = some b.2 := by
@@ -220,7 +221,7 @@ theorem toList_remove {sm sm' : SlotMap α} {k : Key} {v : α} (h : sm.remove k 
     have hne : b.1 ≠ k := by intro e; rw [e] at this; exact hj this.symm
     simp [Option.guard, hne]
 
-theorem get_set {sm : SlotMap α} {k : Key} {l : α} (h : sm.get k = some l) (v : α) (k' : Key) :
+theorem get_set_refine {sm : SlotMap α} {k : Key} {l : α} (h : sm.get k = some l) (v : α) (k' : Key) :
     (sm.set k v).get k' = if k' = k then some v else sm.get k' := by
   obtain ⟨s, hs, hg, hv⟩ := get_eq_some h
   have hset : sm.set k v = { sm with slots := sm.slots.set k.idx { s with val := some v } } := by
@@ -251,7 +252,7 @@ theorem Chain.congr {slots slots' : List (Slot α)} {h fl} (c : Chain slots h fl
     exact ⟨hj, s', hs', by rw [h1]; exact he, by rw [h1]; exact hn, by rw [h2]; exact ih c'⟩
 
 /-- overwriting the value of a live key keeps the slot map well formed -/
-theorem WF.set {sm : SlotMap α} (wf : WF sm) {k : Key} {l : α} (h : sm.get k = some l) (v : α) : WF (sm.set k v) := by
+theorem WF.set_refine {sm : SlotMap α} (wf : WF sm) {k : Key} {l : α} (h : sm.get k = some l) (v : α) : WF (sm.set k v) := by
   obtain ⟨s, hs, hg, hv⟩ := get_eq_some h
   have hset : sm.set k v = { sm with slots := sm.slots.set k.idx { s with val := some v } } := by
     unfold SlotMap.set; simp [hs, hg]
@@ -300,7 +301,7 @@ end SlotMap
 
 /-! ### the abstraction function -/
 
-instance : LawfulBEq Key where
+private instance : LawfulBEq Key where
   eq_of_beq {a b} h := by
     cases a; cases b
     simp only [BEq.beq] at h
@@ -400,23 +401,7 @@ theorem absStore_loc {w : World} (wf : w.entities.WF) (e : Key) : (absStore w).l
     obtain ⟨⟨k, v⟩, hp, rfl⟩ := List.mem_map.mp hm
     rw [SlotMap.get_of_mem_toList hp] at hg; cases hg
 
-theorem strictlySorted_iff (l : List Nat) : strictlySorted l = true ↔ l.Pairwise (· < ·) := by
-  induction l with
-  | nil => simp [strictlySorted]
-  | cons x l ih =>
-    cases l with
-    | nil => simp [strictlySorted]
-    | cons y r =>
-      simp only [strictlySorted, Bool.and_eq_true, decide_eq_true_eq, ih]
-      constructor
-      · rintro ⟨h1, h2⟩
-        refine List.pairwise_cons.mpr ⟨?_, h2⟩
-        intro b hb
-        rcases List.mem_cons.mp hb with rfl | hb
-        · exact h1
-        · exact Nat.lt_trans h1 ((List.pairwise_cons.mp h2).1 b hb)
-      · intro h
-        exact ⟨(List.pairwise_cons.mp h).1 y (by simp), (List.pairwise_cons.mp h).2⟩
+-- `strictlySorted_iff` comes from `Evenio.Proofs.Edges` (same statement; the copy that used to live here was deleted)
 
 /-- what the simulation lemmas need of `World.invArch` -/
 theorem invArch_facts {w : World} (h : w.invArch = true) :
@@ -963,7 +948,7 @@ theorem moveEntity_ne_sim {w w' : World} {src : Loc} {dst : Nat} {new : List (Na
   dsimp only
   rw [setLoc_abs _ hwf _ hl1]
   dsimp only
-  have hwf2 := hwf.set hl1 ⟨dst, da.ids.length⟩
+  have hwf2 := hwf.set_refine hl1 ⟨dst, da.ids.length⟩
   split at hents
   · rename_i sw hsw
     obtain ⟨l2, hl2, he⟩ := hents
@@ -1350,7 +1335,7 @@ theorem spawnStep_sim {w w' : World} (hidx : IndexOk w) (hwf : w.entities.WF)
     have hwf1 := hwf.insertWith hins
     have hg1 : ents1.get k = some Loc.NULL := by rw [SlotMap.get_insertWith hwf hins, if_pos rfl]
     have he2 : w2.entities = ents1 := by rw [m.hw]
-    have hwf2 : (ents1.set k loc).WF := hwf1.set hg1 loc
+    have hwf2 : (ents1.set k loc).WF := hwf1.set_refine hg1 loc
     refine ⟨k, ents1, a0, rfl, hfresh, ha0, ?_, by rw [he2]; exact hwf2, ?_⟩
     · rw [spawn_abs ha0]
       refine ⟨m.archs hidx1, ?_⟩
@@ -1358,7 +1343,7 @@ theorem spawnStep_sim {w w' : World} (hidx : IndexOk w) (hwf : w.entities.WF)
       rw [he2, ← m.hloc]
       rw [List.perm_ext_iff_of_nodup (SlotMap.toList_nodup _)]
       · intro ⟨k', v⟩
-        rw [SlotMap.mem_toList_iff hwf2, SlotMap.get_set hg1, SlotMap.get_insertWith hwf hins, List.mem_append,
+        rw [SlotMap.mem_toList_iff hwf2, SlotMap.get_set_refine hg1, SlotMap.get_insertWith hwf hins, List.mem_append,
           SlotMap.mem_toList_iff hwf]
         by_cases hk : k' = k
         · subst hk
@@ -1488,10 +1473,10 @@ theorem moveEntity_keeps {w w' : World} {src : Loc} {dst : Nat} {new : List (Nat
       show (w.archs.set src.arch _).get dst = some da
       rw [slab_get_set _ m.hsa, if_neg (Ne.symm hne), m.hda]
     · obtain ⟨l1, hl1, hents⟩ := m.hents
-      have hwf2 := hwf.set hl1 ⟨dst, da.ids.length⟩
+      have hwf2 := hwf.set_refine hl1 ⟨dst, da.ids.length⟩
       split at hents
       · obtain ⟨l2, hl2, he⟩ := hents
-        rw [he]; exact hwf2.set hl2 _
+        rw [he]; exact hwf2.set_refine hl2 _
       · rw [hents]; exact hwf2
 
 /-! ### uniform statement for `removeEntity` -/
@@ -1549,7 +1534,7 @@ theorem removeEntity_keeps {w w' : World} {loc : Loc} (hidx : IndexOk w) (hwf : 
     have hwf1 := hwf.remove hrem
     split at hents
     · obtain ⟨l2, hl2, he⟩ := hents
-      rw [he]; exact hwf1.set hl2 _
+      rw [he]; exact hwf1.set_refine hl2 _
     · rw [hents]; exact hwf1
 
 theorem spawnStep_keeps {w w' : World} (hidx : IndexOk w) (hwf : w.entities.WF)
@@ -1624,7 +1609,7 @@ theorem iter_spawnStep_sim {n : Nat} {w w1 : World} (hit : Iter spawnStep n w w1
       intro k'
       rw [he]
       dsimp only
-      rw [SlotMap.get_set hg1, SlotMap.get_insertWith hwf hins]
+      rw [SlotMap.get_set_refine hg1, SlotMap.get_insertWith hwf hins]
       by_cases hk : k' = k <;> simp [hk]
     refine ⟨k :: ks, by simp [hlen], ?_, ?_, ?_, hidx2, hwf2⟩
     · exact heq2.trans (heq.foldl_spawn ks)
@@ -1653,17 +1638,17 @@ theorem spawnAll_sim {w w' : World} (hidx : IndexOk w) (hwf : w.entities.WF)
 /-! ### the handler table keeps its keys -/
 
 /-- the handler table has the keys of `H` -/
-abbrev HK (H : SlotMap HInfo) : World → Prop := fun w => ∀ k, w.handlers.contains k = H.contains k
+abbrev HK_refine (H : SlotMap HInfo) : World → Prop := fun w => ∀ k, w.handlers.contains k = H.contains k
 
 theorem SlotMap.contains_set {α : Type} {sm : SlotMap α} {k : Key} {l : α} (h : sm.get k = some l) (v : α) (k' : Key) :
     (sm.set k v).contains k' = sm.contains k' := by
   unfold SlotMap.contains
-  rw [SlotMap.get_set h]
+  rw [SlotMap.get_set_refine h]
   by_cases hk : k' = k
   · rw [if_pos hk, hk, h]; rfl
   · rw [if_neg hk]
 
-theorem handlerRefresh_hk (H : SlotMap HInfo) (hk : Key) (a : Arch) : Keeps (HK H) (handlerRefresh hk a) := by
+theorem handlerRefresh_hk_refine (H : SlotMap HInfo) (hk : Key) (a : Arch) : Keeps (HK_refine H) (handlerRefresh hk a) := by
   refine ⟨fun w hw => ?_⟩
   unfold handlerRefresh
   rw [run_bind, run_get]
@@ -1682,9 +1667,9 @@ theorem handlerRefresh_hk (H : SlotMap HInfo) (hk : Key) (a : Arch) : Keeps (HK 
       dsimp only
       rw [SlotMap.contains_set hg]
       exact hw k
-macro_rules | `(tactic| keeps_leaf) => `(tactic| exact handlerRefresh_hk _ _ _)
+macro_rules | `(tactic| keeps_leaf) => `(tactic| exact handlerRefresh_hk_refine _ _ _)
 
-theorem handlerRemoveArch_hk (H : SlotMap HInfo) (hk : Key) (a : Arch) : Keeps (HK H) (handlerRemoveArch hk a) := by
+theorem handlerRemoveArch_hk_refine (H : SlotMap HInfo) (hk : Key) (a : Arch) : Keeps (HK_refine H) (handlerRemoveArch hk a) := by
   refine ⟨fun w hw => ?_⟩
   unfold handlerRemoveArch
   rw [run_bind, run_get]
@@ -1698,33 +1683,33 @@ theorem handlerRemoveArch_hk (H : SlotMap HInfo) (hk : Key) (a : Arch) : Keeps (
     dsimp only
     rw [SlotMap.contains_set hg]
     exact hw k
-macro_rules | `(tactic| keeps_leaf) => `(tactic| exact handlerRemoveArch_hk _ _ _)
+macro_rules | `(tactic| keeps_leaf) => `(tactic| exact handlerRemoveArch_hk_refine _ _ _)
 
-theorem getArch_hk (H : SlotMap HInfo) (i : Nat) (s : String) : Keeps (HK H) (getArch i s) := by
+theorem getArch_hk_refine (H : SlotMap HInfo) (i : Nat) (s : String) : Keeps (HK_refine H) (getArch i s) := by
   unfold getArch ubErr; keeps
-macro_rules | `(tactic| keeps_leaf) => `(tactic| exact getArch_hk _ _ _)
-theorem setArch_hk (H : SlotMap HInfo) (a : Arch) : Keeps (HK H) (setArch a) := by unfold setArch; keeps
-macro_rules | `(tactic| keeps_leaf) => `(tactic| exact setArch_hk _ _)
-theorem freshEpoch_hk (H : SlotMap HInfo) : Keeps (HK H) freshEpoch := by unfold freshEpoch; keeps
-macro_rules | `(tactic| keeps_leaf) => `(tactic| exact freshEpoch_hk _)
-theorem dropCellIdx_hk (H : SlotMap HInfo) (c : Nat) (x : Cell) : Keeps (HK H) (dropCellIdx c x) := by
+macro_rules | `(tactic| keeps_leaf) => `(tactic| exact getArch_hk_refine _ _ _)
+theorem setArch_hk_refine (H : SlotMap HInfo) (a : Arch) : Keeps (HK_refine H) (setArch a) := by unfold setArch; keeps
+macro_rules | `(tactic| keeps_leaf) => `(tactic| exact setArch_hk_refine _ _)
+theorem freshEpoch_hk_refine (H : SlotMap HInfo) : Keeps (HK_refine H) freshEpoch := by unfold freshEpoch; keeps
+macro_rules | `(tactic| keeps_leaf) => `(tactic| exact freshEpoch_hk_refine _)
+theorem dropCellIdx_hk_refine (H : SlotMap HInfo) (c : Nat) (x : Cell) : Keeps (HK_refine H) (dropCellIdx c x) := by
   unfold dropCellIdx dropCell; keeps
-macro_rules | `(tactic| keeps_leaf) => `(tactic| exact dropCellIdx_hk _ _ _)
-theorem setLoc_hk (H : SlotMap HInfo) (id : Key) (s : String) (f : Loc → Loc) : Keeps (HK H) (setLoc id s f) := by
+macro_rules | `(tactic| keeps_leaf) => `(tactic| exact dropCellIdx_hk_refine _ _ _)
+theorem setLoc_hk_refine (H : SlotMap HInfo) (id : Key) (s : String) (f : Loc → Loc) : Keeps (HK_refine H) (setLoc id s f) := by
   unfold setLoc ubErr; keeps
-macro_rules | `(tactic| keeps_leaf) => `(tactic| exact setLoc_hk _ _ _ _)
-theorem dbgAssert_hk (H : SlotMap HInfo) (c : Bool) (s : String) : Keeps (HK H) (dbgAssert c s) := by
+macro_rules | `(tactic| keeps_leaf) => `(tactic| exact setLoc_hk_refine _ _ _ _)
+theorem dbgAssert_hk_refine (H : SlotMap HInfo) (c : Bool) (s : String) : Keeps (HK_refine H) (dbgAssert c s) := by
   unfold dbgAssert; keeps
-macro_rules | `(tactic| keeps_leaf) => `(tactic| exact dbgAssert_hk _ _ _)
+macro_rules | `(tactic| keeps_leaf) => `(tactic| exact dbgAssert_hk_refine _ _ _)
 
-theorem moveEntity_hk (H : SlotMap HInfo) (src : Loc) (dst : Nat) (new : List (Nat × Cell)) :
-    Keeps (HK H) (moveEntity src dst new) := by unfold moveEntity ubErr; keeps
-theorem removeEntity_hk (H : SlotMap HInfo) (loc : Loc) : Keeps (HK H) (removeEntity loc) := by
+theorem moveEntity_hk_refine (H : SlotMap HInfo) (src : Loc) (dst : Nat) (new : List (Nat × Cell)) :
+    Keeps (HK_refine H) (moveEntity src dst new) := by unfold moveEntity ubErr; keeps
+theorem removeEntity_hk_refine (H : SlotMap HInfo) (loc : Loc) : Keeps (HK_refine H) (removeEntity loc) := by
   unfold removeEntity ubErr; keeps
-theorem archSpawn_hk (H : SlotMap HInfo) (id : Key) : Keeps (HK H) (archSpawn id) := by
+theorem archSpawn_hk_refine (H : SlotMap HInfo) (id : Key) : Keeps (HK_refine H) (archSpawn id) := by
   unfold archSpawn; keeps
-macro_rules | `(tactic| keeps_leaf) => `(tactic| exact archSpawn_hk _ _)
-theorem spawnAll_hk (H : SlotMap HInfo) : Keeps (HK H) spawnAll := by unfold spawnAll; keeps
+macro_rules | `(tactic| keeps_leaf) => `(tactic| exact archSpawn_hk_refine _ _)
+theorem spawnAll_hk_refine (H : SlotMap HInfo) : Keeps (HK_refine H) spawnAll := by unfold spawnAll; keeps
 
 
 end Evenio
